@@ -48,7 +48,7 @@ def seeds():
     for sid in sorted(needs):
         n = needs[sid]
         res = "; ".join("%s: %s" % (p, r) for p, r in matrix.get(sid, [])) or "(not evaluated yet)"
-        out.append("| `seeded/%s` | %s | %s | %s | %s |" % (sid, sid[-3:], n["change"], n["needs"], res))
+        out.append("| `seeded/%s` | %s | %s | %s | %s |" % (sid, sid.split("_")[1], n["change"], n["needs"], res))
     return "\n".join(out)
 
 
